@@ -21,6 +21,10 @@ Record coll := mkColl {
 Record cstate := mkCS { cs_colls : list (Z * coll); cs_bank : bank }.
 
 Section Cfg.
+(* which variant of ApplyCollectiveRemoveProposalHandler.Apply the tree has (probe): [true] = the error
+   of ExecuteCollectiveRemove is returned, so the gov router drops the cache context; [false] = the
+   error is discarded and partial transfers stay *)
+Variable remove_atomic : bool.
 Variable actors : list (Z * list Z).
 Variable U : list Z.
 Definition croles_of (a : Z) : list Z := match zget a actors with Some r => r | None => [] end.
@@ -195,7 +199,8 @@ Definition co_remove (c : Z) (s : cstate) : outcome cstate :=
   | Some C =>
       do r <- remove_loop c (co_bonds C) (co_contribs C) C (cs_bank s);
       let '(C', b', done) := r in
-      if done then Ok (mkCS (zdel c (cs_colls s)) b') else Ok (set_coll c C' s b')
+      if done then Ok (mkCS (zdel c (cs_colls s)) b')
+      else if remove_atomic then Err "removal failed: nothing written" else Ok (set_coll c C' s b')
   end.
 
 Inductive co_op : Type :=
